@@ -58,7 +58,7 @@ StallScripts == {<<B("stall")>> \o Oks, <<B("closePartial"), B("stall")>> \o Oks
                  <<R(502, "close", NoLoc), B("stall")>> \o Oks, <<B("stall"), B("dialerr")>> \o Oks}
 DeadlineCases ==
   {Mk([Base EXCEPT !.fam = "deadline", !.api = api, !.method = m, !.body = (IF m = "GET" THEN "none" ELSE "bytes"), !.retryIf = rif,
-       !.maxAttempts = ma, !.timeoutMs = 250, !.readTimeoutMs = rt, !.warm = w, !.mw = 2, !.script = s]) :
+       !.maxAttempts = ma, !.timeoutMs = 400, !.readTimeoutMs = rt, !.warm = w, !.mw = 2, !.script = s]) :
      api \in {"reqtimeout", "dotimeout", "dodeadline"}, m \in {"GET", "POST"}, rif \in {"default", "err", "always", "never"},
      ma \in 1 .. 3, rt \in {0, 25}, w \in {"none", "live"}, s \in StallScripts}
 DeadlineOK(c) == GFull \/ (c.api = "reqtimeout" <=> c.maxAttempts = 2) \/ (c.api = "dodeadline" /\ c.maxAttempts = 3 /\ c.warm = "none")
@@ -66,11 +66,11 @@ ReadTimeoutOnly == {Mk([Base EXCEPT !.fam = "deadline", !.api = "do", !.retryIf 
                       rif \in {"default", "err"}, s \in StallScripts}
 ExpiredCases == {Mk([Base EXCEPT !.fam = "deadline", !.api = api, !.timeoutMs = -1, !.maxAttempts = 2, !.script = Oks]) :
                    api \in {"dotimeout", "dodeadline", "gettimeout", "getdeadline"}}
-TimerCases == {Mk([Base EXCEPT !.fam = "deadline", !.api = api, !.timeoutMs = 250, !.script = s]) :
+TimerCases == {Mk([Base EXCEPT !.fam = "deadline", !.api = api, !.timeoutMs = 400, !.script = s]) :
                  api \in {"gettimeout", "getdeadline"},
                  s \in {<<B("stall")>>, Oks, <<R(302, "close", L("path", "", "", "", <<"p">>, "", 0)), B("stall")>>}}
-LongDelay == {Mk([Base EXCEPT !.fam = "deadline", !.api = api, !.retryIf = "err", !.maxAttempts = 2, !.timeoutMs = 250, !.delayMs = 2500,
-                  !.script = <<B("stall")>> \o Oks]) : api \in {"reqtimeout", "dotimeout"}}
+LongDelay == {Mk([Base EXCEPT !.fam = "deadline", !.api = api, !.retryIf = "err", !.maxAttempts = 2, !.timeoutMs = 400, !.delayMs = 2500,
+                  !.script = f \o Oks]) : api \in {"reqtimeout", "dotimeout"}, f \in {<<B("stall")>>, <<B("closePartial")>>, <<B("dialerr")>>}}
 
 \* ---------------------------------------------------------------- family redirect: one redirect, every Location form
 Bases == <<U0, [U0 EXCEPT !.path = << >>, !.q = ""], [U0 EXCEPT !.path = <<"d", "">>, !.q = ""],
@@ -94,10 +94,15 @@ OneRedirectOK(c) == GFull \/ c.script[1].ka = "close" \/ (c.method = "GET" /\ c.
 ChainLocs == {L("path", "", "", "", <<"p", "q">>, "", 0), L("rel", "", "", "", <<"r">>, "y=2", 0), L("rel", "", "", "", <<"s", "t">>, "", 1),
               L("abs", "https", "b.test", "", <<"p">>, "", 0), L("query", "", "", "", << >>, "q=9", 0)}
 ChainHops == {R(code, ka, lc) : code \in {301, 302, 303, 307}, ka \in {"close", "stale"}, lc \in ChainLocs}
-ChainSeqs == {s \in SeqsUpTo(ChainHops, GChainLen) : Len(s) >= 2}
+ChainSeqs == {s \in SeqsUpTo(ChainHops, 2) : Len(s) = 2}
+\* three hops over a smaller alphabet (thorough tier)
+ChainHops3 == {R(code, "close", lc) : code \in {302, 303, 307}, lc \in ChainLocs \ {L("rel", "", "", "", <<"s", "t">>, "", 1)}}
+ChainSeqs3 == IF GChainLen >= 3 THEN {s \in SeqsUpTo(ChainHops3, 3) : Len(s) = 3} ELSE {}
 Chains ==
   {Mk([Base EXCEPT !.fam = "chain", !.api = "redirects", !.method = mb[1], !.body = mb[2], !.maxRedirects = mr, !.mw = 2,
        !.script = s \o Oks]) : mb \in {<<"GET", "none">>, <<"POST", "bytes">>}, mr \in {1, 2, 3}, s \in ChainSeqs}
+  \cup {Mk([Base EXCEPT !.fam = "chain", !.api = "redirects", !.method = mb[1], !.body = mb[2], !.maxRedirects = mr, !.mw = 1,
+            !.script = s \o Oks]) : mb \in {<<"GET", "none">>, <<"PUT", "bytes">>}, mr \in {2, 3}, s \in ChainSeqs3}
 ChainOK(c) == GFull \/ (\A i \in 1 .. 2 : c.script[i].ka = "close") \/ (c.method = "GET" /\ c.script[1].status = 302 /\ c.maxRedirects = 2)
 \* a hop that fails and is retried (custom RetryIf), a hop on a connection the peer closed, the limit of Get/Post (16)
 Hop(code, ka) == R(code, ka, L("rel", "", "", "", <<"n">>, "", 0))
